@@ -339,7 +339,7 @@ class TerminalDevice(Device):
         # 'nan' and 'inf' which are not numbers in BASIC.
         int_re = re.compile(r'[+-]?[0-9]+')
         float_re = re.compile(
-            r'[+-]?([0-9]+[.]?[0-9]*|[.][0-9]+)([eE][+-]?[0-9]+)?')
+            r'[+-]?([0-9]+[.]?[0-9]*|[.][0-9]+)([eEdD][+-]?[0-9]+)?')
 
         def push_vars(string, var_types):
             values = string.split(',')
@@ -373,7 +373,7 @@ class TerminalDevice(Device):
                     cells.append((CellType.LONG, v))
                 elif vtype == 3:  # SINGLE
                     try:
-                        v = float(v)
+                        v = float(v.lower().replace('d', 'e'))
                     except ValueError:
                         return False
                     if not math.isfinite(v) or \
@@ -382,7 +382,7 @@ class TerminalDevice(Device):
                     cells.append((CellType.SINGLE, v))
                 elif vtype == 4:  # DOUBLE
                     try:
-                        v = float(v)
+                        v = float(v.lower().replace('d', 'e'))
                     except ValueError:
                         return False
                     if not math.isfinite(v) or \
@@ -476,10 +476,10 @@ class DataDevice(Device):
             # python's float() also accepts forms like '1_0', 'nan'
             # and 'inf' which are not numbers in BASIC.
             if not re.fullmatch(
-                    r'[+-]?([0-9]+[.]?[0-9]*|[.][0-9]+)([eE][+-]?[0-9]+)?',
+                    r'[+-]?([0-9]+[.]?[0-9]*|[.][0-9]+)([eEdD][+-]?[0-9]+)?',
                     s):
                 raise ValueError
-            value = float(s)
+            value = float(s.lower().replace('d', 'e'))
             if not math.isfinite(value):
                 raise ValueError
             return value
